@@ -66,6 +66,63 @@ theorem c16_runset_upstream_closed (sem : RunSem) (hs : sem.skipSelf = true) (hm
   · exact Or.inr ⟨q, hq, Reach.direct hu⟩
   · exact Or.inr ⟨t, ht, reach_trans wf (Reach.direct hu) hr⟩
 
+/-! ### rewiring for `RunTo` -/
+
+/-- no connection leaves the run set: both ends of every remaining connection are started processes (or the sink) -/
+theorem c16_reconnect_confined (rs : List Nat) (ops : List OutP) (conns : List (OutP × InP))
+    (c : OutP × Option InP) (hc : c ∈ reconnect rs ops conns) :
+    c.1.1 ∈ rs ∧ ∀ d, c.2 = some d → d.1 ∈ rs := by
+  simp only [reconnect, List.mem_append, List.mem_map, List.mem_filter] at hc
+  rcases hc with ⟨x, ⟨_, hx⟩, rfl⟩ | ⟨op, ⟨_, hop⟩, rfl⟩
+  · simp at hx
+    exact ⟨hx.1, by intro d hd; simp at hd; subst hd; exact hx.2⟩
+  · simp at hop
+    exact ⟨hop.1, by intro d hd; simp at hd⟩
+
+/-- every out-port of a started process ends up with a consumer — a started process or the sink — so the
+process is `Ready` and none of its sends waits for a process that does not run -/
+theorem c16_reconnect_every_outport_consumed (rs : List Nat) (ops : List OutP) (conns : List (OutP × InP))
+    (op : OutP) (hop : op ∈ ops) (hrs : op.1 ∈ rs) : ∃ c ∈ reconnect rs ops conns, c.1 = op := by
+  by_cases hk : ((conns.filter fun c => rs.contains c.1.1 && rs.contains c.2.1).any fun c => c.1 == op) = true
+  · obtain ⟨x, hx, hxo⟩ := List.any_eq_true.1 hk
+    refine ⟨(x.1, some x.2), ?_, by simpa using hxo⟩
+    simp only [reconnect, List.mem_append, List.mem_map]
+    exact Or.inl ⟨x, hx, rfl⟩
+  · refine ⟨(op, none), ?_, rfl⟩
+    simp only [reconnect, List.mem_append, List.mem_map, List.mem_filter]
+    refine Or.inr ⟨op, ⟨hop, ?_⟩, rfl⟩
+    simp only [Bool.not_eq_true] at hk
+    simp only [Bool.and_eq_true, Bool.not_eq_true']
+    exact ⟨by simpa using hrs, hk⟩
+
+/-- a started process keeps every producer of its in-ports, provided the run set is closed under "upstream of"
+(`c16_runset_upstream_closed`) -/
+theorem c16_reconnect_keeps_producers (rs : List Nat) (ops : List OutP) (conns : List (OutP × InP))
+    (hup : ∀ c ∈ conns, c.2.1 ∈ rs → c.1.1 ∈ rs) (c : OutP × InP) (hc : c ∈ conns) (hp : c.2.1 ∈ rs) :
+    (c.1, some c.2) ∈ reconnect rs ops conns := by
+  simp only [reconnect, List.mem_append, List.mem_map, List.mem_filter]
+  exact Or.inl ⟨c, ⟨hc, by simp [hup c hc hp, hp]⟩, rfl⟩
+
+/-- the sink takes over exactly the out-ports that lost (or never had) every consumer -/
+theorem c16_reconnect_sink_only_dead_ends (rs : List Nat) (ops : List OutP) (conns : List (OutP × InP))
+    (op : OutP) (h : (op, none) ∈ reconnect rs ops conns) : ∀ d, (op, some d) ∉ reconnect rs ops conns := by
+  intro d hd
+  simp only [reconnect, List.mem_append, List.mem_map, List.mem_filter] at h hd
+  rcases h with ⟨x, _, hx⟩ | ⟨op', ⟨_, hdead⟩, hop'⟩
+  · simp at hx
+  · simp at hop'; subst hop'
+    rcases hd with ⟨x, hxk, hx⟩ | ⟨op'', _, hx⟩
+    · simp at hx
+      simp only [Bool.and_eq_true, Bool.not_eq_true'] at hdead
+      have := List.any_eq_false.1 hdead.2 x (List.mem_filter.2 hxk)
+      simp [hx.1] at this
+    · simp at hx
+
+/-- non-vacuity: P0 → P1 → P2 and P0 → P3; RunTo P1 keeps P0 → P1, cuts P1 → P2 and P0 → P3 and gives both
+dangling out-ports to the sink -/
+example : reconnect [0, 1] [(0, 0), (0, 1), (1, 0)] [((0, 0), (1, 0)), ((1, 0), (2, 0)), ((0, 1), (3, 0))] =
+    [((0, 0), some (1, 0)), ((0, 1), none), ((1, 0), none)] := by decide
+
 theorem planLeaf_started (sem : RunSem) (wf : Wf) (rs : List Nat) (isRun : Bool) (dd : Nat) (gs : List Nat)
     (d : Option Nat) (b : Bool) (hp : planLeaf sem wf rs isRun dd = .started gs d b) :
     gs = goroutines sem rs isRun dd ∧ d = some dd ∧ b = sem.sinkWaited := by
@@ -207,6 +264,10 @@ end SciVerif.Graph
 #print axioms SciVerif.Graph.c16_runset_is_closure
 #print axioms SciVerif.Graph.reach_trans
 #print axioms SciVerif.Graph.c16_runset_upstream_closed
+#print axioms SciVerif.Graph.c16_reconnect_confined
+#print axioms SciVerif.Graph.c16_reconnect_every_outport_consumed
+#print axioms SciVerif.Graph.c16_reconnect_keeps_producers
+#print axioms SciVerif.Graph.c16_reconnect_sink_only_dead_ends
 #print axioms SciVerif.Graph.planLeaf_started
 #print axioms SciVerif.Graph.mem_goroutines
 #print axioms SciVerif.Graph.removedB_good
